@@ -39,12 +39,12 @@ package xbuf
 //@   modular symbolic
 //@   ensures ret1 == b && len(*b) == old(len(*b))+len(s)
 //@   ensures all(j, int, 0 <= j && j < old(len(*b)) ==> (*b)[j] == old((*b)[j]))
-//@   ensures all(j, int, 0 <= j && j < len(s) ==> (*b)[old(len(*b))+j] == s[j])
+//@   ensures all(j, int, old(len(*b)) <= j && j < old(len(*b))+len(s) ==> (*b)[j] == s[j-old(len(*b))])
 //@   assigns *b
 //@   loop 1 invariant 0 <= i && i <= len(s) && len(sb) == len(s) && len(*b) == old(len(*b))+i
 //@   loop 1 invariant all(j, int, 0 <= j && j < len(s) ==> sb[j] == s[j])
 //@   loop 1 invariant all(j, int, 0 <= j && j < old(len(*b)) ==> (*b)[j] == old((*b)[j]))
-//@   loop 1 invariant all(j, int, 0 <= j && j < i ==> (*b)[old(len(*b))+j] == s[j])
+//@   loop 1 invariant all(j, int, old(len(*b)) <= j && j < old(len(*b))+i ==> (*b)[j] == s[j-old(len(*b))])
 //@   loop 1 modifies *b
 
 //@ func (*B).Sb
@@ -52,11 +52,11 @@ package xbuf
 //@   modular symbolic
 //@   ensures ret1 == b && len(*b) == old(len(*b))+len(sb)
 //@   ensures all(j, int, 0 <= j && j < old(len(*b)) ==> (*b)[j] == old((*b)[j]))
-//@   ensures all(j, int, 0 <= j && j < len(sb) ==> (*b)[old(len(*b))+j] == sb[j])
+//@   ensures all(j, int, old(len(*b)) <= j && j < old(len(*b))+len(sb) ==> (*b)[j] == sb[j-old(len(*b))])
 //@   assigns *b
 //@   loop 1 invariant 0 <= i && i <= len(sb) && len(*b) == old(len(*b))+i
 //@   loop 1 invariant all(j, int, 0 <= j && j < old(len(*b)) ==> (*b)[j] == old((*b)[j]))
-//@   loop 1 invariant all(j, int, 0 <= j && j < i ==> (*b)[old(len(*b))+j] == sb[j])
+//@   loop 1 invariant all(j, int, old(len(*b)) <= j && j < old(len(*b))+i ==> (*b)[j] == sb[j-old(len(*b))])
 //@   loop 1 modifies *b
 
 //@ func (*B).Sn
@@ -64,16 +64,16 @@ package xbuf
 //@   modular symbolic
 //@   ensures ret1 == b && len(*b) == old(len(*b))+ite(n > len(s), n, len(s))
 //@   ensures all(j, int, 0 <= j && j < old(len(*b)) ==> (*b)[j] == old((*b)[j]))
-//@   ensures all(j, int, 0 <= j && j < len(s) ==> (*b)[old(len(*b))+j] == s[j])
-//@   ensures all(j, int, len(s) <= j && j < n ==> (*b)[old(len(*b))+j] == ' ')
+//@   ensures all(j, int, old(len(*b)) <= j && j < old(len(*b))+len(s) ==> (*b)[j] == s[j-old(len(*b))])
+//@   ensures all(j, int, old(len(*b))+len(s) <= j && j < old(len(*b))+n ==> (*b)[j] == 32)
 //@   assigns *b
 //@   loop 1 invariant 0 <= i && i <= len(s) && len(sb) == len(s) && len(*b) == old(len(*b))+i
 //@   loop 1 invariant all(j, int, 0 <= j && j < len(s) ==> sb[j] == s[j])
 //@   loop 1 invariant all(j, int, 0 <= j && j < old(len(*b)) ==> (*b)[j] == old((*b)[j]))
-//@   loop 1 invariant all(j, int, 0 <= j && j < i ==> (*b)[old(len(*b))+j] == s[j])
+//@   loop 1 invariant all(j, int, old(len(*b)) <= j && j < old(len(*b))+i ==> (*b)[j] == s[j-old(len(*b))])
 //@   loop 1 modifies *b
 //@   loop 2 invariant len(s) <= i && i <= n && len(sb) == len(s) && len(*b) == old(len(*b))+i
 //@   loop 2 invariant all(j, int, 0 <= j && j < old(len(*b)) ==> (*b)[j] == old((*b)[j]))
-//@   loop 2 invariant all(j, int, 0 <= j && j < len(s) ==> (*b)[old(len(*b))+j] == s[j])
-//@   loop 2 invariant all(j, int, len(s) <= j && j < i ==> (*b)[old(len(*b))+j] == ' ')
+//@   loop 2 invariant all(j, int, old(len(*b)) <= j && j < old(len(*b))+len(s) ==> (*b)[j] == s[j-old(len(*b))])
+//@   loop 2 invariant all(j, int, old(len(*b))+len(s) <= j && j < old(len(*b))+i ==> (*b)[j] == 32)
 //@   loop 2 modifies *b
